@@ -10,6 +10,7 @@ import (
 	"sort"
 	"strconv"
 	"sync"
+	"time"
 
 	appsv1 "k8s.io/api/apps/v1"
 	corev1 "k8s.io/api/core/v1"
@@ -29,6 +30,7 @@ import (
 	corelisters "k8s.io/client-go/listers/core/v1"
 	clienttesting "k8s.io/client-go/testing"
 	"k8s.io/client-go/tools/cache"
+	"k8s.io/client-go/util/retry"
 	"k8s.io/klog/v2"
 
 	"github.com/go-logr/logr"
@@ -58,6 +60,11 @@ func globalInit() {
 	initOnce.Do(func() {
 		klog.SetLogger(logr.Discard())
 		utilruntime.ErrorHandlers = []func(error){func(error) { HandledErrors++ }}
+		// client-go's conflict-retry helpers sleep between attempts (10ms..310ms in total). Keep the
+		// number of attempts, drop the real-time waiting: nothing in the simulation advances with
+		// wall-clock time.
+		retry.DefaultRetry.Duration = time.Nanosecond
+		retry.DefaultBackoff.Duration = time.Nanosecond
 	})
 }
 
@@ -212,6 +219,7 @@ type permPodNSLister struct {
 func (l *permPodNSLister) List(sel labels.Selector) ([]*corev1.Pod, error) {
 	pods, err := l.PodNamespaceLister.List(sel)
 	l.r.cur.permute(pods)
+	l.r.cur.notePodList(pods)
 	return pods, err
 }
 
@@ -299,8 +307,10 @@ type Cluster struct {
 	rv    int64
 	uidN  int64
 
-	logging bool
-	Log     []*Action
+	logging   bool
+	snapTaken bool
+	snap      []*corev1.Pod
+	Log       []*Action
 	// AllWrites counts every non-event write since creation (diagnostics).
 	callIdx int
 
@@ -364,6 +374,21 @@ func (c *Cluster) clearCaches() {
 	c.r.pvcInf.Informer().GetIndexer().Replace(nil, "")
 	c.r.setInf.Informer().GetIndexer().Replace(nil, "")
 	c.r.revInf.Informer().GetIndexer().Replace(nil, "")
+}
+
+// notePodList remembers what the first pod listing of the running reconcile returned: that, not
+// the cache content at the start of the reconcile, is the snapshot the reconcile acted on (the
+// harness may refresh caches between two API calls of one reconcile).
+func (c *Cluster) notePodList(pods []*corev1.Pod) {
+	if !c.logging || c.snapTaken {
+		return
+	}
+	c.snapTaken = true
+	c.snap = nil
+	for _, p := range pods {
+		c.snap = append(c.snap, p.DeepCopy())
+	}
+	sort.Slice(c.snap, func(i, j int) bool { return c.snap[i].Name < c.snap[j].Name })
 }
 
 func (c *Cluster) permute(pods []*corev1.Pod) {
